@@ -238,6 +238,14 @@ func vPickFirstGen(r *vRand, tier string, idx int) ([]int64, [][]int64) {
 	case 3:
 		// happy eyeballs: timer-driven attempts, out-of-turn failures, last one wins
 		return nil, [][]int64{{1, 1001, 2001, 1002, 5}, {2, 0, 1}, {5}, {2, 1, 1}, {5}, {2, 0, 3}, {5}, {5}, {2, 2, 3}, {2, 1, 3}, {2, 3, 1}, {2, 3, 2}, {2, 3, 0}, {6}, {5}}
+	case 4:
+		// witness of the defect repaired by 5362b94: the cursor moves while IDLE is published (sc0 reports TF without
+		// a Connect), ExitIdle restarts the pass (now from the first address); after sc1 fails the pass must end with
+		// TF and IDLE reports must be re-connected (before: nothing published, no Connect ever again)
+		return nil, [][]int64{{1, 1001, 1002}, {2, 0, 1}, {2, 0, 0}, {2, 0, 3}, {6}, {2, 1, 3}, {2, 0, 0}, {2, 1, 0}, {5}}
+	case 5:
+		// the same with three addresses and the timer: cursor at 2 when ExitIdle arrives
+		return nil, [][]int64{{1, 1001, 1002, 1003}, {2, 0, 1}, {2, 0, 2}, {2, 0, 0}, {2, 0, 3}, {5}, {2, 2, 3}, {6}, {2, 1, 3}, {2, 0, 0}, {5}}
 	}
 	var ops [][]int64
 	n := 25 + r.Intn(60)
